@@ -9,6 +9,9 @@
 (*  Parts{e[], a[], b[], e2[], fresh[], order}: lints (digests) of one document under an enabled *)
 (*     set E, under the two halves of a partition E = A + B (in a logged order, on  *)
 (*     one long-lived linter), under E again, and under E on a fresh linter.        *)
+(*  Switch{entry, rule, value, got, moved}: one rule switched on or off through the   *)
+(*     harper-ls settings or the harper-wasm JSON, overlaid on the curated defaults:   *)
+(*     the explicit choice comes out and no other rule moves (every rule, both ways).  *)
 (*  Overlay{want[], ls[], wasm_ok, wasm_roundtrip_ok}: user settings overlaid on    *)
 (*     curated defaults through harper-ls's and harper-wasm's entry formats.        *)
 EXTENDS ConfigOps, Json, IOUtils
@@ -53,6 +56,10 @@ Check(e) ==
          IF ~BagSum(e.e, e.a, e.b) THEN PrintT(<<"REJECT", l, "not-the-combination-of-its-parts", "">>)
          ELSE IF ~BagEq(e.e, e.e2) THEN PrintT(<<"REJECT", l, "same-config-different-result", "">>)
          ELSE IF ~BagEq(e.e, e.fresh) THEN PrintT(<<"REJECT", l, "history-of-configurations-shows", "">>)
+         ELSE TRUE
+    [] e.ev = "Switch" ->
+         IF e.got # e.value THEN PrintT(<<"REJECT", l, "explicit-choice-lost", e.entry>>)
+         ELSE IF e.moved # 0 THEN PrintT(<<"REJECT", l, "switch-moved-another-rule", e.entry>>)
          ELSE TRUE
     [] e.ev = "Overlay" ->
          IF ~BagEq(e.want, e.ls) THEN PrintT(<<"REJECT", l, "ls-overlay-differs", "">>)
